@@ -4,17 +4,22 @@
   Scope of the theorems: the ALGORITHMS of `circuits/common/lintrans` as modelled in
   `Lattigo.Model.LinTrans` over a slot carrier (`SlotOps`): which encoded diagonal is multiplied
   with which rotation, the encoding-time pre-rotation, the accumulation, the Galois keys requested
-  and advertised, the output level/scale rule.  The ciphertext layer underneath (hoisted key
-  switching, lazy QP accumulation with overflow margins, ModDown) is not part of these theorems:
-  it is exercised on the real code by the harness (decrypted result = `M·v` exactly mod t / within
-  2^-8 for ckks) and belongs to C04/C11.
+  and advertised, the output level/scale rule.  Of the ciphertext layer underneath, the lazy
+  accumulation SCHEDULE (`Lattigo.Model.LinTrans.Lazy`: counters, margins, reduce points, ModDown
+  points, one accumulator word) is modelled and `lazy_accumulation_no_wrap` proved; the polynomials
+  themselves (hoisted key switching, automorphisms, ModDown) are not: they are exercised on the real
+  code by the harness (decrypted result = `M·v` exactly mod t / within 2^-8 for ckks, also on 60/61-bit
+  primes with more than two windows of baby steps) and belong to C04/C11.  The schedule has no
+  observable counterpart (`ring.Reduce` cannot be intercepted through the public API); the only tie is
+  `margin` (`QiOverflowMargin`/`PiOverflowMargin`).
 
   The model follows the code with the fixes C12-1 (EvaluateMany recomputes the hoisted decomposition
   for every transformation), C12-2 (the naive algorithm without any off-main diagonal; the zero
   matrix) and C12-3 (`Diagonals.At` for negative indices) applied; the former counterexample theorems
   are now the positive `evaluateMany_spec`, `naive_spec` (no restriction), `at_spec`.
 -/
-import Lattigo.Proofs.LinTransMatrix
+import Lattigo.Proofs.LinTransAt
+import Lattigo.Proofs.LinTransLazy
 
 namespace Lattigo.Props.C12
 open Lattigo.Model.LinTrans
@@ -72,19 +77,56 @@ theorem bsgs_regroup {α : Type} (O : SlotOps α) (n : Nat) (L : SlotLaws O n) (
 /-- the laws are satisfiable: the carrier the driver executes on is lawful -/
 example (n : Nat) : SlotLaws (fnOps n) n := fnOps_laws n
 
-/-- **end to end, BSGS** on the execution carrier: `Encode` (which looks every allocated key up
-    with `Diagonals.At`) followed by `MultiplyByDiagMatrixBSGS` is the matrix–vector product. -/
-theorem lintrans_bsgs_spec (n N1 : Nat) (hN : 0 < N1) (keys : List Int)
-    (hr : ∀ k ∈ keys, 0 ≤ k ∧ k < (n : Int))
-    (diagonals : List (Int × Slots n)) (D : Int → Slots n)
-    (hAt : ∀ k ∈ keys, diagAt diagonals k n = some (D k)) (v : Slots n) :
+/-- **end to end, BSGS** on the execution carrier, from the index-set hypotheses alone: the user's
+    diagonal map has its indices in `(-n, n)`, distinct modulo `n` (positive or negative spellings);
+    `keys` are normalised indices of it (what `NewLinearTransformation` allocates).  Then `Encode` —
+    which looks every allocated key up with `Diagonals.At` — succeeds, and
+    `MultiplyByDiagMatrixBSGS` on the result is the matrix–vector product with the diagonal
+    `diagOf n diagonals k` (the one the user supplied for the residue class of `k`) on diagonal `k`. -/
+theorem lintrans_bsgs_spec (n N1 : Nat) (hn : 0 < n) (hN : 0 < N1)
+    (diagonals : List (Int × Slots n))
+    (hrange : ∀ d ∈ diagonals, -(n : Int) < d.1 ∧ d.1 < (n : Int))
+    (hdist : (diagonals.map fun d => d.1 % (n : Int)).Nodup)
+    (keys : List Int) (hkeys : ∀ k ∈ keys, ∃ d ∈ diagonals, k = normIdx n d.1) (v : Slots n) :
+    (∀ d ∈ diagonals, diagOf n diagonals (normIdx n d.1) = d.2) ∧
     ∃ vec, encode (fnOps n) n N1 keys diagonals = some vec ∧
-      evalBSGS (fnOps n) n N1 vec v = .val (matVec n keys D v) := by
-  refine ⟨_, encode_bsgs (fnOps n) n N1 (Nat.pos_iff_ne_zero.1 hN) keys diagonals D hAt, ?_⟩
-  rw [evalBSGS_eq (fnOps_laws n) N1 hN keys hr D v, diagSum_fn]
+      evalBSGS (fnOps n) n N1 vec v = .val (matVec n keys (diagOf n diagonals) v) := by
+  have hr : ∀ k ∈ keys, 0 ≤ k ∧ k < (n : Int) := by
+    intro k hk
+    obtain ⟨d, _, rfl⟩ := hkeys k hk
+    exact normIdx_range n hn d.1
+  have hAt := diagAt_keys n diagonals hrange hdist keys hkeys
+  refine ⟨fun d hd => diagOf_of_mem n diagonals hdist d.1 d.2 hd, _,
+    encode_bsgs (fnOps n) n N1 (Nat.pos_iff_ne_zero.1 hN) keys diagonals _ hAt, ?_⟩
+  rw [evalBSGS_eq (fnOps_laws n) N1 hN keys hr (diagOf n diagonals) v, diagSum_fn]
 
-/-- non-vacuity: diagonals given with a negative spelling are found by `At` under their normalised key -/
-example : diagAt [((-3 : Int), (7 : Int)), (1, 8)] 5 8 = some 7 ∧ diagAt [((-3 : Int), (7 : Int)), (1, 8)] 1 8 = some 8 := by
+/-- … for the transformation `NewLinearTransformation` allocates: every `LogBabyStepGiantStepRatio ≥ 0`,
+    `N1 = FindBestBSGSRatio`, the keys of `Vec` as allocated — no hypothesis left on the keys -/
+theorem lintrans_bsgs_spec_allocated (n : Nat) (hn : 0 < n) (logRatio : Int) (hl : ¬ logRatio < 0)
+    (diagonals : List (Int × Slots n))
+    (hrange : ∀ d ∈ diagonals, -(n : Int) < d.1 ∧ d.1 < (n : Int))
+    (hdist : (diagonals.map fun d => d.1 % (n : Int)).Nodup) (v : Slots n) :
+    ∃ vec, encode (fnOps n) n (allocate (diagonals.map (·.1)) n logRatio).1
+        (allocate (diagonals.map (·.1)) n logRatio).2 diagonals = some vec ∧
+      evalBSGS (fnOps n) n (allocate (diagonals.map (·.1)) n logRatio).1 vec v
+        = .val (matVec n (allocate (diagonals.map (·.1)) n logRatio).2 (diagOf n diagonals) v) := by
+  have hN := Lattigo.Model.LinTrans.findBestBSGSRatio_pos (diagonals.map (·.1)) n logRatio.toNat
+  have hkeys : ∀ k ∈ (allocate (diagonals.map (·.1)) n logRatio).2, ∃ d ∈ diagonals, k = normIdx n d.1 := by
+    intro k hk
+    simp only [allocate, hl, if_false] at hk
+    obtain ⟨i, hi, rfl⟩ := allocKeys_mem n _ hn hN (diagonals.map (·.1)) k hk
+    obtain ⟨d, hd, rfl⟩ := List.mem_map.1 hi
+    exact ⟨d, hd, rfl⟩
+  have h1 : (allocate (diagonals.map (·.1)) n logRatio).1 = findBestBSGSRatio (diagonals.map (·.1)) n logRatio.toNat := by
+    simp [allocate, hl]
+  have := lintrans_bsgs_spec n _ hn (h1 ▸ hN) diagonals hrange hdist _ hkeys v
+  exact this.2
+
+/-- non-vacuity: indices `-3` and `1` for `n = 8` lie in `(-8, 8)` and are distinct modulo 8; `At`
+    finds the first under its normalised key 5 -/
+example : (∀ d ∈ [((-3 : Int), (7 : Int)), (1, 8)], -((8 : Nat) : Int) < d.1 ∧ d.1 < ((8 : Nat) : Int)) ∧
+    ([((-3 : Int), (7 : Int)), (1, 8)].map fun d => d.1 % ((8 : Nat) : Int)).Nodup ∧
+    diagAt [((-3 : Int), (7 : Int)), (1, 8)] 5 8 = some 7 ∧ diagAt [((-3 : Int), (7 : Int)), (1, 8)] 1 8 = some 8 := by
   decide
 
 /-- both algorithms agree -/
@@ -168,6 +210,74 @@ theorem meta_spec (t ol cl ll cs ls : Nat) :
     (outMeta t ol cl ll cs ls).1 = min ol (min cl ll) ∧
     (outMeta t ol cl ll cs ls).2 = (if t = 0 then cs * ls else cs * ls % t) := ⟨rfl, rfl⟩
 
+/-! ## lazy accumulation (ciphertext layer, schedule only) -/
+
+section lazy
+open Lattigo.Model.LinTrans.Lazy Lattigo.Gen
+
+/-- **lazy_accumulation_no_wrap**: in the inner loop of `MultiplyByDiagMatrixBSGS` — margin
+    `QiOverflowMargin(level) >> 1 = ⌊⌊2^64 / max q_i⌋ / 2⌋`, test `cnt % margin == margin-1 ⇒ Reduce`,
+    final test `cnt % margin != 0 ⇒ Reduce` — a uint64 accumulator word of the limb `q` never reaches
+    2^64, for every chain of moduli below 2^61 (what `CheckModuli` admits in Q and in P), every number of baby steps, all reduced operands; it
+    ends reduced and congruent to the sum of the lazy products. -/
+theorem lazy_accumulation_no_wrap (qs : List Nat) (hqs : ∀ x ∈ qs, x < 2 ^ 61) (q qinv : Nat) (hq : q ∈ qs)
+    (hm : MontConst q qinv) (xys : List (Nat × Nat)) (hxy : ∀ xy ∈ xys, xy.1 < q ∧ xy.2 < q) (hne : xys ≠ []) :
+    let ps := xys.map fun xy => MRedLazy xy.1 xy.2 q qinv
+    let r := accRun q (halved (overflowMargin qs)) ps
+    (∀ raw ∈ r.1, raw < W) ∧ r.2 < q ∧ r.2 % q = ps.sum % q :=
+  Lattigo.Model.LinTrans.Lazy.lazy_accumulation_no_wrap qs hqs q qinv hq hm xys hxy hne
+
+/-- non-vacuity: a chain of a 60-bit and a 61-bit modulus; the Montgomery constant of the latter -/
+example : (∀ x ∈ [1152921504606846883, 2305843009213693951], x < 2 ^ 61) ∧
+    MontConst 2305843009213693951 (GenMRedConstant 2305843009213693951) := by
+  refine ⟨by decide, ?_⟩
+  exact (GenMRedConstant_spec 2305843009213693951 (by decide) (by decide)).1
+
+/-- the general form: any moduli `q ≤ qmax ≤ 2^64/3` (covers the 62-bit primes of P), margin
+    `⌊2^64/qmax⌋ >> 1`, summands at most `q + ⌊q²/2^64⌋` — also the OUTER loop, whose summands are
+    reduced words -/
+theorem lazy_accumulation_no_wrap_general (q qmax : Nat) (hq0 : 0 < q) (hq : q ≤ qmax) (h3 : 3 * qmax ≤ W)
+    (ps : List Nat) (hps : ∀ p ∈ ps, p ≤ q + q * q / W) (hne : ps ≠ []) :
+    let r := accRun q (halved ((W / qmax : Nat) : Int)) ps
+    (∀ raw ∈ r.1, raw < W) ∧ r.2 < q ∧ r.2 % q = ps.sum % q :=
+  accRun_no_wrap q qmax hq0 hq h3 ps hps hne
+
+example : 3 * 4611686018427387847 ≤ W := by decide   -- a 62-bit prime
+
+/-- the product bound that makes it work: on reduced operands `MRedLazy ≤ q + ⌊q²/2^64⌋` -/
+theorem mredlazy_reduced_bound (x y q qinv : Nat) (hq : 2 * q ≤ W) (hm : MontConst q qinv)
+    (hx : x < q) (hy : y < q) : MRedLazy x y q qinv ≤ q + q * q / W :=
+  MRedLazy_le_reduced x y q qinv hq hm hx hy
+
+/-- **the documented bound is not enough**: with summands only known to be `< 2q` (the bound of
+    `MRedLazy_spec`, and what "margin = how many elements of Z_q fit into 2^64, halved" accounts for) the
+    accumulator DOES wrap: every window after the first starts from a reduced word, not from 0. -/
+theorem lazy_2q_bound_insufficient :
+    ∃ q : Nat, q < 2 ^ 61 ∧ ∃ ps : List Nat, (∀ p ∈ ps, p < 2 * q) ∧
+      ∃ raw ∈ (accRun q (halved ((W / q : Nat) : Int)) ps).1, W ≤ raw :=
+  accLoop_2q_bound_wraps
+
+/-- **ModDown once per giant step** (and once more for the result), for every index and all margins -/
+theorem modDown_once_per_giant_step (MQ MP : Int) (index : List (Int × List Int)) :
+    (bsgsSchedule MQ MP index).countP isModDownInner = (index.filter fun ji => ji.1 != 0).length :=
+  Lattigo.Model.LinTrans.Lazy.modDown_once_per_giant_step MQ MP index
+
+/-- without P (`PiOverflowMargin = -1`) no reduction of a P part is scheduled -/
+theorem no_P_no_reduce (cnt : Nat) :
+    reduceNow (halved (overflowMargin [])) cnt = false ∧ reduceAtEnd (halved (overflowMargin [])) cnt = false :=
+  no_reduce_without_moduli cnt
+
+/-- the naive algorithm's final `Reduce` is redundant (it fires iff the last iteration reduced) -/
+theorem naive_final_reduce_redundant (M : Nat) (hM : 1 ≤ M) (len : Nat) (hlen : 1 ≤ len) :
+    reduceAtEndNaive (M : Int) len = reduceNow (M : Int) (len - 1) :=
+  Lattigo.Model.LinTrans.Lazy.naive_final_reduce_redundant M hM len hlen
+
+/-- test: two giant steps of 9 and 3 baby steps, margins 4 (Q) and 2 (P) -/
+example : ((bsgsSchedule 4 2 [(0, [0,1,2,3,4,5,6,7,8]), (16, [0,1,2])]).filter (· == .reduceInnerQ)).length = 4 ∧
+    ((bsgsSchedule 4 2 [(0, [0,1,2,3,4,5,6,7,8]), (16, [0,1,2])]).filter (· == .modDownFinal)).length = 1 := by decide
+
+end lazy
+
 /-! ## `Diagonals.At` -/
 
 /-- **at_spec**: "accepts negative values with the equivalency -i = n - i": an index absent from the map
@@ -189,6 +299,7 @@ example : diagAt [((5 : Int), (1 : Int))] (-3) 8 = some 1 := by decide
 #print axioms naive_main_diagonal_only
 #print axioms bsgs_regroup
 #print axioms lintrans_bsgs_spec
+#print axioms lintrans_bsgs_spec_allocated
 #print axioms bsgs_eq_naive
 #print axioms evaluateMany_spec
 #print axioms evaluateSequential_two
@@ -196,5 +307,12 @@ example : diagAt [((5 : Int), (1 : Int))] (-3) 8 = some 1 := by decide
 #print axioms findBestBSGSRatio_pos
 #print axioms meta_spec
 #print axioms at_spec
+#print axioms lazy_accumulation_no_wrap
+#print axioms lazy_accumulation_no_wrap_general
+#print axioms mredlazy_reduced_bound
+#print axioms lazy_2q_bound_insufficient
+#print axioms modDown_once_per_giant_step
+#print axioms no_P_no_reduce
+#print axioms naive_final_reduce_redundant
 
 end Lattigo.Props.C12
